@@ -3,7 +3,7 @@
 C13 translator.  Regenerates lean/CalicoVerif/Gen/C13.lean from the CURRENT tree ($VERIF_REPO):
 
  C side   clang (-target bpf) parses translate/c13/layouts.c, which includes the real headers
-          felix/bpf-gpl/{ip_addr,types,conntrack_types,nat_types,events_type,policy}.h (bpf.h is skipped
+          felix/bpf-gpl/{ip_addr,types,conntrack_types,nat_types,events_type,policy,routes,ifstate,failsafe,arp}.h (bpf.h is skipped
           through its include guard: libbpf is not available offline), once without and once with
           -DIPVER6.  From the AST (json) every shared record becomes a Lean `Rec` (field name,
           (size, align) of the field type, bit-field width, packed, union); nested records are
@@ -27,7 +27,7 @@ TU = os.path.join(ROOT, "translate/c13/layouts.c")
 ROOTS = ["cali_tc_state", "calico_ct_key", "calico_ct_value", "calico_ct_leg", "calico_ct_result",
          "calico_nat", "calico_nat_key", "calico_nat_value", "calico_nat_secondary_key", "calico_nat_dest",
          "calico_nat_affinity_key", "calico_nat_affinity_val", "cali_maglev_key", "ip_set_key",
-         "event_header", "fwd"]
+         "event_header", "fwd", "cali_rt_key", "cali_rt", "ifstate_val", "failsafe_key", "arp_key", "arp_value"]
 
 BUILTIN = {"char": (1, 1), "signed char": (1, 1), "unsigned char": (1, 1), "_Bool": (1, 1), "bool": (1, 1),
            "short": (2, 2), "unsigned short": (2, 2), "int": (4, 4), "unsigned int": (4, 4),
